@@ -598,8 +598,9 @@ func (c *VirtualTable) Insert(ctx context.Context, values map[int]interface{}) (
 	var ot time.Time
 	// An INTEGER and a REAL of the same value are one key (they compare equal)
 	// but hash to different tree layers. If the row was stored under the other
-	// numeric type, address that entry: a second, equal key would break the tree.
-	if twin := numericTwin(NewKey(key)); twin != nil {
+	// numeric type (or as the zero of the other sign), address that entry: a
+	// second, equal key would break the tree.
+	for _, twin := range numericTwins(NewKey(key)) {
 		var trow *v1proto.Row
 		var tt time.Time
 		tok, err := getRow(ctx, c, twin, &trow, &tt)
@@ -608,6 +609,7 @@ func (c *VirtualTable) Insert(ctx context.Context, values map[int]interface{}) (
 		}
 		if tok {
 			key = twin.Value()
+			break
 		}
 	}
 	ok, err := getRow(ctx, c, NewKey(key), &old, &ot)
